@@ -3905,6 +3905,14 @@ func (c *Compiler) setWasmGlobalValue(index wasm.Index, v ssa.Value) {
 		store.AsStore(ssa.OpcodeStore, v, loadGlobalInstPtr.Return(), uint32(0))
 		builder.InsertInstruction(store)
 
+		// Two imports may denote the same global instance (imported twice, or once directly and once through a re-export):
+		// the values remembered for the other imported mutable globals of this type may be stale now.
+		// As in reloadAfterCall, the reloads are optimized out when they are not used.
+		for _, other := range c.mutableGlobalVariablesIndexes {
+			if other != index && other < c.m.ImportGlobalCount && c.globalVariablesTypes[other] == c.globalVariablesTypes[index] {
+				_ = c.getWasmGlobalValue(other, true)
+			}
+		}
 	} else {
 		store := builder.AllocateInstruction()
 		store.AsStore(ssa.OpcodeStore, v, c.moduleCtxPtrValue, uint32(opaqueOffset))
